@@ -1,6 +1,7 @@
 """Helpers of C21 (and C26): column-slice views of shim arrays for H mode, tiny dof-tree models, MuJoCo's CSR layout of the
 inertia matrix, and a lemma chain that replaces proved-equal terms by their closed form before the next query."""
 
+import itertools
 import os
 
 import numpy as np
@@ -55,6 +56,9 @@ def _getitem(self, key):
   return _orig_getitem(self, key)
 
 
+_names = itertools.count()
+
+
 class Interp1(core.Interp):
   """wp.block_dim() of a launch with block_dim = 1 (the CPU configuration of _solve_LD_sparse: one thread per world walks every
   level in order, the block barrier is a no-op)"""
@@ -64,6 +68,17 @@ class Interp1(core.Interp):
     super().__init__(*a, **kw)
     if HostRun.current is not None:
       HostRun.current.interps.append(self)
+
+  def store(self, ref, idx, val, g, where):
+    """every symbolic float a thread stores gets a name  t!N == value  (hr.defs): later reads see the name, so lemma chains
+    can replace intermediate results by closed forms reliably (the engine flattens products, which defeats matching on
+    structural sub-terms) and solver queries only pull in the definitions they need"""
+    hr = HostRun.current
+    if hr is not None and hr.naming and core.is_sym(val) and not isinstance(val, core.Vec) and z3.is_real(val) and val.num_args() > 0:
+      v = z3.Real(f"t!{next(_names)}")
+      hr.defs.append((v, val))
+      val = v
+    return super().store(ref, idx, val, g, where)
 
   def builtin(self, fr, key, args, e):
     if key == "block_dim":
@@ -78,6 +93,10 @@ class HostRun(host.HostRun):
   """HostRun whose shim arrays can be sliced `a[:, off:]` and copied into such views"""
 
   cur_block_dim = None
+
+  def __init__(self, *a, naming=True, **kw):
+    super().__init__(*a, **kw)
+    self.naming, self.defs, self.interps = naming, [], []
 
   def writes(self, cell):
     """plain stores into `cell` in execution order: [(index tuple, stored value)] (all threads of all launches)"""
@@ -94,7 +113,6 @@ class HostRun(host.HostRun):
 
   def __enter__(self):
     host.SymArr.__getitem__ = _getitem
-    self.interps = []
     self._interp = host.Interp
     host.Interp = Interp1
     super().__enter__()
@@ -286,43 +304,53 @@ class OneShot(kh.Session):
 
 
 class Chain:
-  """Background axioms + an ordered list of proved equalities `term == closed form` that are applied as substitutions
-  (latest first: later terms contain earlier ones) to axioms and goals.  Sound: every pair was proved from the same
-  background, so a formula and its substituted version are equivalent under the background."""
+  """Side axioms (sqrt definitions), definitions  name == value  of stored intermediates, preconditions over the parameters,
+  and an ordered list of proved equalities  name == closed form  applied as a simultaneous substitution to every formula.
+  Sound: every pair was proved from the same background, so a formula and its substituted version are equivalent under it;
+  leaving out axioms / definitions (cone of influence, `opaque` names) only weakens the background of an unsat proof."""
 
-  def __init__(self, axioms, facts):
-    self.axioms = [core.zbool(a) for a in axioms if a is not True]  # engine side axioms (sqrt definitions, ...)
-    self.facts = [core.zbool(f) for f in facts]  # preconditions over the parameters
+  def __init__(self, axioms, defs, facts):
+    self.axioms = [core.zbool(a) for a in axioms if a is not True]
+    self.defs = list(defs)
+    self.facts = [core.zbool(f) for f in facts]
     self.subs = []
+    self.opaque = set()
 
   def sb(self, f):
-    f = core.zbool(f) if isinstance(f, bool) else f
-    for p in reversed(self.subs):
-      f = z3.substitute(f, p)
-    return f
+    f = z3.BoolVal(f) if isinstance(f, bool) else f
+    return z3.substitute(f, *self.subs) if self.subs else f
 
   def add(self, term, closed):
     if core.is_sym(term) and not (core.is_sym(closed) and term.eq(closed)):
-      self.subs.append((term, closed if core.is_sym(closed) else z3.RealVal(closed)))
+      closed = closed if core.is_sym(closed) else z3.RealVal(closed)
+      # keep the substitution idempotent: earlier right-hand sides may mention the new term
+      self.subs = [(t, z3.substitute(c, (term, closed))) for t, c in self.subs] + [(term, closed)]
 
   def background(self, goal):
-    """facts + the side axioms in the cone of influence of the (substituted) goal.  Engine-introduced symbols carry a '!'
-    (sqrt!N, ...); an axiom is relevant iff it shares such a symbol with the goal (transitively).  Dropping axioms keeps
-    every `unsat` sound; fully substituted axioms are consequences of the facts."""
-    eng = lambda cs: {c for c in cs if "!" in c and not c.startswith("uninit!")}
+    eng = lambda cs: {c for c in cs if "!" in c and not c.startswith("uninit!")} - self.opaque
+    replaced = {t.decl().name() for t, _ in self.subs if z3.is_const(t)}
+    need = eng(consts_of(goal))
+    defs = [(v, self.sb(t)) for v, t in self.defs if v.decl().name() not in replaced]
+    defc = [eng(consts_of(t)) for v, t in defs]
     ax = [self.sb(a) for a in self.axioms]
     axc = [eng(consts_of(a)) for a in ax]
-    need = eng(consts_of(goal))
-    used = [False] * len(ax)
+    axd = [{c for c in cs if c.startswith("sqrt!")} or cs for cs in axc]
+    out = []
+    used_d, used_a = [False] * len(defs), [False] * len(ax)
     changed = True
     while changed:
       changed = False
+      for k, (v, t) in enumerate(defs):
+        if not used_d[k] and v.decl().name() in need:
+          used_d[k] = changed = True
+          need |= defc[k]
+          out.append(v == t)
       for k in range(len(ax)):
-        if not used[k] and axc[k] & need:
-          used[k] = True
+        if not used_a[k] and axd[k] & need:
+          used_a[k] = changed = True
           need |= axc[k]
-          changed = True
-    return self.facts + [a for k, a in enumerate(ax) if used[k]]
+          out.append(ax[k])
+    return self.facts + out
 
   def session(self, ctx, goal, guard=True, tactic=None):
     g = self.sb(core.zbool(goal))
